@@ -3,8 +3,9 @@ specs/cstore: CStateStore.tla (the store: Save / loadStateAtHeight / LoadValidat
 PruneState, updateState; instantiated as specified and as implemented), MC_CStateStore.tla (every chain of
 states under a universe of validator-set change sets, every prune range, every read; per-transition dump).
 ValidatorSet.tla is taken from specs/valset (single source for Increment/Update semantics).
-harness/cstore: TestReplay (every dumped transition into the real cstate store), TestUpdateState (chain only;
-also usable by C12), TestApplyBlock (the same chains through the real BlockExecutor.ApplyBlock)."""
+harness/cstore: TestReplay (every dumped transition into the real cstate store; with CSTORE_OLD_BELOW an upgraded
+old database), TestUpdateState (chain only; also usable by C12), TestApplyBlock (the same chains through the real
+BlockExecutor.ApplyBlock), TestGenesisRestart (first start and restart on the real NewBlockChain path)."""
 import os
 from vlib import Infra, SPECS
 
@@ -31,11 +32,12 @@ def gen_module(initp, changesets, name="MCgen"):
             (name, ", ".join(map(str, initp)), ", ".join(changesets)))
 
 
-def gen_cfg(params, maxblocks, maxprunes, invariants=("Inv",), dump=True, impl=(False, False, False, False)):
+def gen_cfg(params, maxblocks, maxprunes, invariants=("Inv",), dump=True, impl=(False, False, False, False, False), upgrade_at=0):
     b = lambda x: "TRUE" if x else "FALSE"
     s = ("SPECIFICATION Spec\nCONSTANTS\n  Cap = 1000000\n  InitPowers <- InitP\n  ChangeSets <- ChSets\n  ParamsU = %s\n"
-         "  MaxBlocks = %d\n  MaxPrunes = %d\n  ImplKey = %s\n  ImplPrune = %s\n  ImplLookups = %s\n  ImplGenesis = %s\nVIEW View\n") % (
-        params, maxblocks, maxprunes, b(impl[0]), b(impl[1]), b(impl[2]), b(impl[3]))
+         "  MaxBlocks = %d\n  MaxPrunes = %d\n  ImplKey = %s\n  ImplPrune = %s\n  ImplLookups = %s\n  ImplGenesis = %s\n"
+         "  ImplPerHeight = %s\n  ImplUpgradeAt = %d\nVIEW View\n") % (
+        params, maxblocks, maxprunes, b(impl[0]), b(impl[1]), b(impl[2]), b(impl[3]), b(impl[4]), upgrade_at)
     for i in invariants:
         s += "INVARIANT %s\n" % i
     if dump:
@@ -43,22 +45,30 @@ def gen_cfg(params, maxblocks, maxprunes, invariants=("Inv",), dump=True, impl=(
     return s
 
 
+# The as-implemented instance of the specification (constants ImplKey, ImplPrune, ImplLookups, ImplGenesis, ImplPerHeight of
+# MC_CStateStore) describes the code AS IT IS in the tree: it only classifies deviations (":key-collision" etc. versus
+# ":unexplained"), it never excuses one.  AS_FOUND = the pinned code.  When the proposed repairs are committed
+# (per-height records, LoadConsensusParams error, genesis join) switch CODE_MODEL to REPAIRED.
+AS_FOUND = (False, False, False, False, False)
+REPAIRED = (False, False, True, True, True)
+CODE_MODEL = REPAIRED
+
 # universes: tag -> (genesis powers, change sets, params universe,
 #                    (blocks, prunes, stride) quick, (blocks, prunes, stride) thorough)
 NONE = "<<>>"
 UNIVERSES = [
     # equal powers: priorities differ from height to height although the membership never changes (the measured case);
     # power change and back, removal and re-addition (return to an earlier membership)
-    ("equal3", (1, 1, 1), [NONE, chs((1, 5)), chs((1, 1)), chs((3, 0)), chs((3, 1))], "{1}", (5, 1, 1), (7, 2, 2)),
+    ("equal3", (1, 1, 1), [NONE, chs((1, 5)), chs((1, 1)), chs((3, 0)), chs((3, 1))], "{1}", (5, 1, 1), (7, 1, 1)),
     # weighted set, a newcomer (address 4) entering at -(T + T/8), removal of the heaviest validator, unknown removal
-    ("weighted", (3, 2, 1), [NONE, chs((1, 0)), chs((1, 3)), chs((4, 2)), chs((4, 0)), chs((2, 1))], "{1}", (4, 1, 1), (6, 2, 2)),
+    ("weighted", (3, 2, 1), [NONE, chs((1, 0)), chs((1, 3)), chs((4, 2)), chs((4, 0)), chs((2, 1))], "{1}", (4, 1, 1), (6, 1, 1)),
     # two changes in one block, swap of a member, emptying the set (rejected), removal of every possible proposer
     ("pairs", (2, 1), [NONE, chs((1, 0), (3, 4)), chs((3, 0), (1, 2)), chs((1, 0), (2, 0)), chs((2, 0)), chs((2, 1)), chs((3, 1))],
-     "{1}", (4, 1, 1), (6, 2, 2)),
+     "{1}", (4, 1, 1), (5, 1, 1)),
     ("four", (1, 1, 1, 1), [NONE, chs((1, 0)), chs((2, 0)), chs((3, 0)), chs((4, 0)), chs((1, 1), (2, 1), (3, 1), (4, 1))], "{1}",
      (4, 1, 1), (5, 2, 1)),
     # params extension: a block may switch the consensus params (the code has no such block; Save takes any state)
-    ("params", (2, 1), [NONE, chs((2, 2)), chs((2, 1))], "{1, 2, 3}", (3, 1, 1), (5, 2, 1)),
+    ("params", (2, 1), [NONE, chs((2, 2)), chs((2, 1))], "{1, 2, 3}", (3, 1, 1), (4, 1, 1)),
 ]
 
 # the invariants of C14 evaluated on the AS-IMPLEMENTED instance: TLC must refute them (shortest histories);
@@ -75,11 +85,11 @@ REQUIRED_SCRIPTS = ["static", "consecutive-changes", "return-to-earlier-membersh
                     "removal-of-next-proposer", "prune", "blocks-after-prune", "rejected-change-set"]
 
 
-def tlc_dump(c, tag, initp, changesets, params, blocks, prunes, dump):
-    files = {"MCgen.tla": gen_module(initp, changesets), "MCgen.cfg": gen_cfg(params, blocks, prunes),
-             "ValidatorSet.tla": VALSET}
+def tlc_dump(c, tag, initp, changesets, params, blocks, prunes, dump, upgrade_at=0):
+    files = {"MCgen.tla": gen_module(initp, changesets), "ValidatorSet.tla": VALSET,
+             "MCgen.cfg": gen_cfg(params, blocks, prunes, dump=dump is not None, impl=CODE_MODEL, upgrade_at=upgrade_at)}
     r = c.tlc("cstore", "MCgen.cfg", module="MCgen", files=files, dump_to=dump, timeout=5400, workers=WORKERS,
-              tag="MC_CStateStore %s blocks<=%d prunes<=%d" % (tag, blocks, prunes))
+              tag="MC_CStateStore %s blocks<=%d prunes<=%d%s" % (tag, blocks, prunes, "" if dump else " (invariants only)"))
     if r.violated:
         # the as-specified store violates C14 in the model: the specification is wrong, never a verdict on the code
         raise Infra("specification invariant %s violated in %s\n%s" % (r.violated, tag, c.tlc_tail(r, 60)))
@@ -163,18 +173,54 @@ def run(c):
     c.absorb(g)
     os.remove(dump)
 
+    # a database whose first heights were written by the code before the per-height records (upgrade): the states the
+    # repaired code saved itself must round-trip exactly, the older ones must behave exactly as the as-implemented
+    # instance with UpgradeAt = 2 says ("as before"), in particular PruneState's rule for the hash-addressed records
+    if CODE_MODEL == REPAIRED:
+        tag, initp, changesets, params, q, t = UNIVERSES[0]
+        dump = os.path.join(c.scratch, "cstore-old.dump")
+        tlc_dump(c, tag + " (old database below height 2)", initp, changesets, "{1}", 6 if th else 4, 1, dump, upgrade_at=2)
+        g = c.gotest("cstore", "TestReplay", env=goenv(CSTORE_DUMP=dump, CSTORE_INIT=",".join(map(str, initp)), CSTORE_OLD_BELOW=2),
+                     timeout=5400, tag="old database " + tag)
+        for k, v in (g.get("extra") or {}).items():
+            if k.startswith("olddb_"):
+                c.extra[k] = v
+        g["extra"] = {"mismatch_counts:olddb": (g.get("extra") or {}).get("mismatch_counts", {})}
+        c.absorb(g)
+        os.remove(dump)
+
     # the Start transition (history <<>>) on the real start-up path: NewBlockChain + LoadStateFromDBOrGenesisDoc, twice
     g = c.gotest("cstore", "TestGenesisRestart", env=goenv(), timeout=1800, tag="real genesis, restart before block 1")
     g["extra"] = {"mismatch_counts:genesis-restart": (g.get("extra") or {}).get("mismatch_counts", {})}
     c.absorb(g)
 
-    # negative control of the invariants / design-level finding at model level: the as-implemented instance must violate them
     uni = {u[0]: u for u in UNIVERSES}
+    # the invariants alone (no dump) on a larger bound than the one that is replayed
+    if th:
+        _, initp, changesets, params, _, _ = uni["equal3"]
+        tlc_dump(c, "equal3", initp, changesets, params, 7, 2, None)
+
+    # the design of the proposed repair (per-height records next to the hash-addressed ones, fallback, prune rule):
+    # everything C14 states must hold on that instance, for every chain and prune range
+    _, initp, changesets, params, _, _ = uni["equal3"]
+    files = {"MCgen.tla": gen_module(initp, changesets), "ValidatorSet.tla": VALSET,
+             "MCgen.cfg": gen_cfg(params, 6 if th else 4, 2 if th else 1, invariants=("Inv", "ImplInv"), dump=False, impl=REPAIRED)}
+    r = c.tlc("cstore", "MCgen.cfg", module="MCgen", files=files, timeout=3600, workers=WORKERS, tag="model of the proposed repair: ImplInv")
+    if not r.ok:
+        raise Infra("the model of the proposed repair violates %s (%s)\n%s" % (r.violated, r.error, c.tlc_tail(r, 60)))
+    c.extra["proposed_repair_model"] = "Inv and ImplInv hold (%d states)" % r.distinct
+    files["MCgen.cfg"] = gen_cfg(params, 6 if th else 4, 1, invariants=("ImplUpgradeInv",), dump=False, impl=REPAIRED, upgrade_at=2)
+    r = c.tlc("cstore", "MCgen.cfg", module="MCgen", files=files, timeout=3600, workers=WORKERS,
+              tag="model of the proposed repair taking over an old database at height 2: ImplUpgradeInv")
+    if not r.ok:
+        raise Infra("the model of the proposed repair (upgrade) violates %s (%s)\n%s" % (r.violated, r.error, c.tlc_tail(r, 60)))
+
+    # negative control of the invariants / design-level finding at model level: the instance AS FOUND must violate them
     shown = {}
     for inv, tag, blocks in NEGATIVE if th else NEGATIVE[:3]:
         _, initp, changesets, params, _, _ = uni[tag]
         files = {"MCgen.tla": gen_module(initp, changesets), "ValidatorSet.tla": VALSET,
-                 "MCgen.cfg": gen_cfg(params, blocks, 1, invariants=(inv,), dump=False)}
+                 "MCgen.cfg": gen_cfg(params, blocks, 1, invariants=(inv,), dump=False, impl=AS_FOUND)}
         r = c.tlc("cstore", "MCgen.cfg", module="MCgen", files=files, timeout=1800, workers=WORKERS,
                   tag="as implemented: " + inv)
         if r.violated != inv:
